@@ -9,21 +9,31 @@ stability on mutated files."""
 import json, os, re
 
 ID = 'C05'
-GENERATORS = ['gen_codepage', 'gen_formats']
+GENERATORS = ['gen_codepage', 'gen_formats', 'gen_xbin', 'gen_sauce']   # gen_xbin: C06's codec constants; gen_sauce: C11's record layout (extension)
 COQ_TARGETS = ['Props/C05.vo', 'Run/RunC05.vo']
 PROPS_MODULE = 'Props.C05'
 THEOREMS = ['bin_roundtrip', 'bin_load_total', 'bin_resave', 'adf_roundtrip', 'adf_resave', 'adf_palette_roundtrip',
             'xb_roundtrip_one_font', 'xb_roundtrip_two_fonts', 'xb_resave', 'idf_roundtrip', 'idf_resave',
             'tnd_roundtrip', 'tnd_resave', 'palette63_roundtrip', 'font_block_roundtrip', 'layer_get_after_set',
             'known_1_witness', 'known_1_always_refused', 'known_2_witness',
-            'tnd_fixed_loader_agrees', 'xb_fixed_loader_accepts', 'xb_fixed_loader_accepted']
+            'tnd_fixed_loader_agrees', 'xb_fixed_loader_accepts', 'xb_fixed_loader_accepted',
+            # extension: XBin whole files with compressed data, re-save of all accepted XBin files, files with SAUCE bytes
+            'xb_writer_uncompressed', 'xb_data_sections_load_alike', 'xb_loader_reads_data_section', 'xb_writer_places_data_section',
+            'xb_compressed_file_loads_as_plain', 'xb_compressed_file_exists_iff',
+            'xb_roundtrip_compressed_one_font', 'xb_roundtrip_compressed_two_fonts',
+            'xb_compression_transparent_one_font', 'xb_compression_transparent_two_fonts', 'xb_roundtrip_any_page',
+            'xb_resave_any', 'xb_resave_512', 'known_2_exact', 'known_2_refusal', 'known_2_witness_both_writers',
+            'bin_file_roundtrip', 'tnd_file_roundtrip', 'xb_file_roundtrip_one_font', 'xb_file_roundtrip_two_fonts']
 SWEEP_LEMMAS = ['C05BinProofs.from_u8_vis_sweep (256 bytes x 3 modes: a decoded attribute is visible and on font page 0)',
                 'C05AdfProofs.six_bit_sweep / expand6_idem_sweep (64 six-bit values, 256 byte values of the u8 expression r << 2 | r >> 4)',
                 'C05AdfProofs.ega_offsets_sweep (the generated EGA_COLOR_OFFSETS: 16 distinct indices below 64; EGA_PALETTE has 64 entries)',
                 'C05XBinProofs.xb_two_sweep (3 modes x 8 fg x 16 bg x blink x 2 pages: attribute bit 3 as font page in 512-character mode)',
                 'C05XBinProofs.xb_flags_decode (the generated XBin flag bits are decoded independently: 16 combinations)',
                 'C05XBinProofs.default_font_sweep (the generated default font: 256 glyphs of 16 bytes)',
-                'C18 AttrProofs.dec_enc_sweep / enc_dec_sweep / from_u8_shape_sweep (attribute byte codec, reused)']
+                'C18 AttrProofs.dec_enc_sweep / enc_dec_sweep / from_u8_shape_sweep (attribute byte codec, reused)',
+                'C05XBinCProofs.xb_flagsc_decode (the five generated XBin flag bits incl. FLAG_COMPRESS: 32 combinations)',
+                'C05XBinResaveProofs.xb_dec2_sweep (256 attribute bytes x 3 modes: what decode_char stores in 512-character mode is visible, expressible, fg < 8, not bold, page 0 or 1)',
+                'C06 XBinProofs.hdr_sweep / header_sweep / enc_mask_sweep (run header fields, reused through impl_decoder_agrees)']
 
 FMTS = ['bin', 'adf', 'xb', 'idf', 'tnd']
 FNO = {f: i for i, f in enumerate(FMTS)}
@@ -192,6 +202,7 @@ def save_opts(rng, fmt):
     """(compress, save_sauce) as the format needs: BIN and Tundra carry their width in the SAUCE record"""
     if fmt in ('bin', 'tnd'): return 0, 1
     if fmt == 'idf': return rng.randrange(2), rng.randrange(2)
+    if fmt == 'xb': return rng.randrange(2), rng.randrange(2)     # both data layouts (extension)
     return 0, rng.randrange(2)
 
 # --------------------------------------------------------------------------- parsing harness / model output
@@ -358,29 +369,48 @@ def correspondence(ctx):
             data, tail = split_sauce(b) if c['sauce'] else (b, None)
             d2 = mutate(rng, data, header_len(fmt, data))
             if len(d2) > 60000: continue
-            if fmt == 'xb' and len(d2) > 10 and d2[10] & 4: continue      # compressed data layout: property C06, not modelled here
             mcases.append({'kind': 'resave', 'fmt': fmt, 'data': d2, 'tail': tail, 'pic': c['pic'], 'comp': c['comp'], 'sauce': c['sauce']})
+    mcases += xb512_cases(rng, by_fmt['xb'], ctx.n(10, 60))
     mimpl = ctx.impl(['c5resave %s %d %d %s' % (c['fmt'], c['comp'], c['sauce'], hexs(c['data'] + (c['tail'] or []))) for c in mcases], per_case_timeout=30)
     for c in mcases:
         s = sauce_of(c['fmt'], c['pic']) if c['tail'] else 'None'
         exprs.append('run_resave %d %s %s [%s] (%s)' % (FNO[c['fmt']], 'true' if c['comp'] else 'false', 'true' if c['sauce'] else 'false',
                                                        '; '.join(map(str, c['data'])), s))
-    weights = [c['pic'].w * c['pic'].h + 2000 for c in cases] + [len(c['data']) + 4000 for c in mcases]
+    # third wave (extension): whole files WITH their SAUCE bytes - Buffer::to_bytes(.., save_sauce) byte for byte (the date bytes are
+    # taken from the real output) and Buffer::from_bytes on them, through Model/C05Files.v (C05 data + C11 record / split)
+    fcases = []; fnorm = []
+    nfile = ctx.n(8, 60); per_fmt = {}
+    for c, r in zip(cases, impl):
+        fk = (c['fmt'], c['comp'])                                             # XBin: both data layouts
+        if c['fmt'] not in ('bin', 'xb', 'tnd') or not c['sauce'] or per_fmt.get(fk, 0) >= (nfile if c['fmt'] != 'xb' else (nfile + 1) // 2): continue
+        if not (r and r[0] == 'ok' and r[1][0] == 1) or c['pic'].w * c['pic'].h > 1000 or c['pic'].w > 160: continue
+        n = r[1][1]; b = r[1][2:2 + n]
+        data, tail = split_sauce(b)
+        if tail is None: continue
+        per_fmt[fk] = per_fmt.get(fk, 0) + 1
+        name = 'verif font 0' if (c['pic'].fonts and 0 in c['pic'].fonts) else 'Codepage 437 English'
+        fcases.append({'kind': 'file', 'fmt': c['fmt'], 'pic': c['pic'], 'comp': c['comp'], 'sauce': 1})
+        fnorm.append(norm_impl_file(r))
+        exprs.append('run_file %d %s %s [%s] [%s]' % (FNO[c['fmt']], 'true' if c['comp'] else 'false', c['pic'].coq(),
+                                                      '; '.join(str(ord(ch)) for ch in name), '; '.join(map(str, tail[83:91]))))
+    weights = [c['pic'].w * c['pic'].h + 2000 for c in cases] + [len(c['data']) + 4000 for c in mcases] + [2 * c['pic'].w * c['pic'].h + 6000 for c in fcases]
     model = model_eval(ctx, IMPORTS, ['digest (%s)' % e for e in exprs], weights)
     dis = []; dist = {}; nontrivial = set(); outcomes = {}
-    allc = cases + mcases
-    norm = [norm_impl(r, c['sauce']) for c, r in zip(cases, impl)] + [norm_resave_impl(r, c['sauce']) for c, r in zip(mcases, mimpl)]
+    allc = cases + mcases + fcases
+    norm = [norm_impl(r, c['sauce']) for c, r in zip(cases, impl)] + [norm_resave_impl(r, c['sauce']) for c, r in zip(mcases, mimpl)] + fnorm
     bad = [i for i in range(len(allc)) if norm[i] is None or model[i] is None or digest(norm[i]) != model[i]]
     # the cases whose digests differ are evaluated again in full to locate the first difference
     full = model_eval(ctx, IMPORTS, [exprs[i] for i in bad[:6]], None) if bad else []
     for k, c in enumerate(allc):
         a = norm[k]
         key = '%s %s' % (c['fmt'], c['kind']); dist[key] = dist.get(key, 0) + 1
-        if c['kind'] == 'rt':
-            oc = 'save-refused' if a == [0] else ('save-or-load-panics' if a == [-1] else (a[0] if a and isinstance(a[0], str) else 'saved+loaded'))
-            if a and a[0] == 1: nontrivial.add((c['fmt'], c['pic'].w, c['pic'].h, hash(tuple(c['pic'].cell_list()[:50]))))
+        if c['kind'] in ('rt', 'file'):
+            if c['fmt'] == 'xb': key2 = 'xb %s %s' % (c['kind'], 'compressed' if c['comp'] else 'plain'); dist[key2] = dist.get(key2, 0) + 1
+            oc = 'save-refused' if a == [0] else ('save-or-load-panics' if a == [-1] else (a[0] if a and isinstance(a[0], str) else ('saved+loaded' if c['kind'] == 'rt' else 'file-with-sauce:saved+loaded')))
+            if a and a[0] == 1: nontrivial.add((c['fmt'], c['kind'], c['comp'], c['pic'].w, c['pic'].h, hash(tuple(c['pic'].cell_list()[:50]))))
         else:
-            oc = 'mutated:' + ('load-refused' if a == [0] else ('panics' if a == [-1] else (a[0] if a and isinstance(a[0], str) else 'loaded')))
+            if c.get('directed'): dist['xb resave ' + c['directed']] = dist.get('xb resave ' + c['directed'], 0) + 1
+            oc = 'mutated:' + ('load-refused' if a == [0] else ('panics' if a == [-1] else (a[0] if a and isinstance(a[0], str) else ('loaded+save-refused' if resave_refused(a) else 'loaded'))))
             if a and a[0] == 1: nontrivial.add((c['fmt'], 'm', hash(tuple(c['data'][-80:])), len(c['data'])))
         outcomes[oc] = outcomes.get(oc, 0) + 1
     for j, k in enumerate(bad):
@@ -389,14 +419,72 @@ def correspondence(ctx):
         d = {'case': 'c5%s %s %d %d' % (c['kind'], c['fmt'], c['comp'], c['sauce']), 'fmt': c['fmt'], 'comp': c['comp'], 'sauce': c['sauce'], 'kind': c['kind'],
              'first_difference_at': i, 'impl': None if a is None else a[max(0, i - 2):i + 6], 'model': None if b is None else b[max(0, i - 2):i + 6],
              'lengths': [a and len(a), b and len(b)]}
-        if c['kind'] == 'rt':
+        if c['kind'] in ('rt', 'file'):
             d.update({'picture': c['pic'].brief(), 'fontspec': fontspec(c['pic']), 'pal': c['pic'].pal})
+            if c['kind'] == 'file': d['kind'] = 'rt'      # the search stage re-runs it as a round trip with SAUCE
         else:
             d.update({'file': hexs(c['data'] + (c['tail'] or []))[:200000]})
         dis.append(d)
     return {'cases': len(cases) + len(mcases), 'disagreements': dis, 'distinct_nontrivial': len(nontrivial),
             'distribution': {'kinds': dist, 'outcomes': outcomes, 'model_errors': getattr(ctx, 'model_errors', [])[:2]},
             'samples': [('c5rt %s %d %d %s' % (c['fmt'], c['comp'], c['sauce'], c['pic'].args()))[:160] for c in cases[:3]]}
+
+def resave_refused(a):
+    """normalised resave observation: first load ok, then the writer refused"""
+    try:
+        d, i = parse_load(a, 0)
+        return isinstance(d, dict) and a[i:] == [0]
+    except Exception:
+        return False
+
+def norm_impl_file(r):
+    """harness c5rt result with save_sauce: the COMPLETE file bytes (SAUCE included), then the load observation"""
+    if r is None: return None
+    if r[0] == 'panic': return [-1]
+    if r[0] == 'err' and 'picture-too-large' in str(r[1]): return [-2]
+    if r[0] != 'ok': return [r[0]]
+    v = r[1]
+    if v[0] != 1: return [0]
+    n = v[1]; rest = v[2 + n:]
+    if rest and rest[0] != 1: rest = [0]
+    return [1, n] + v[2:2 + n] + rest
+
+def xb_synth_512(rng, w, h, fh, with_font, ice, pages):
+    """a hand-made uncompressed XBin file in 512-character mode; pages: 'both' | 'zero' | 'one'"""
+    flags = 16 | (2 if with_font else 0) | (8 if ice else 0)
+    d = list(b'XBIN') + [26, w & 255, w >> 8, h & 255, h >> 8, fh, flags]
+    if with_font: d += [rng.randrange(256) for _ in range(2 * 256 * fh)]
+    for i in range(w * h):
+        a = rng.randrange(256)
+        if pages == 'zero': a &= ~8
+        elif pages == 'one': a |= 8
+        d += [rng.randrange(256), a & 255]
+    return d
+
+def xb512_cases(rng, pool, n):
+    """directed re-save inputs for 512-character files (extension): pages 0 and 1 / only 0 / only 1 in use, with and without
+    the font block (without it and with a page-1 cell: known finding 2, both sides must report the writer's refusal), saved
+    again with either value of SaveOptions.compress; seeds: hand-made files and the two-font files stage C just wrote"""
+    out = []
+    def add(d, what, tail=None):
+        out.append({'kind': 'resave', 'fmt': 'xb', 'data': d, 'tail': tail, 'pic': None, 'comp': rng.randrange(2), 'sauce': 0, 'directed': what})
+    for k in range(n):
+        with_font = k % 3 != 2
+        pages = ['both', 'zero', 'one'][(k // 3) % 3]
+        w, h = rng.choice([(1, 1), (5, 3), (16, 2), (80, 2), (33, 4)]); fh = rng.choice([1, 2, 8, 16])
+        d = xb_synth_512(rng, w, h, fh, with_font, rng.random() < 0.5, pages)
+        if k % 7 == 6 and len(d) > 13: d = d[:-rng.randrange(1, 3)]                  # cut inside the last row
+        add(d, '512 %s pages=%s' % ('font' if with_font else 'no-font', pages))
+    two = [(c, b) for c, b in pool if c['pic'].fonts and len(c['pic'].fonts) == 2 and not c['comp'] and len(b) > 11 and b[10] & 16]
+    for c, b in two[:max(2, n // 3)]:
+        data, tail = split_sauce(b) if c['sauce'] else (b, None)
+        hl = header_len('xb', data)
+        cells = data[hl:]
+        one = data[:hl] + [x | 8 if i & 1 else x for i, x in enumerate(cells)]
+        zero = data[:hl] + [x & ~8 if i & 1 else x for i, x in enumerate(cells)]
+        nofont = data[:10] + [data[10] & ~2] + data[11:11 + (48 if data[10] & 1 else 0)] + cells
+        add(one, '512 writer-file pages=one'); add(zero, '512 writer-file pages=zero'); add(nofont, '512 writer-file no-font')
+    return out
 
 def fontspec(pic):
     if pic.fonts is None: return None
@@ -760,7 +848,7 @@ def replay(ctx, body):
         f = check_resave(fmt, comp, sauce, inp['file'], r)
         data = [int(inp['file'][i:i + 2], 16) for i in range(0, len(inp['file']), 2)] if inp['file'] != '-' else []
         d, tail = split_sauce(data)
-        if tail is None and (fmt != 'xb' or not (len(d) > 10 and d[10] & 4)):
+        if tail is None:
             m = ctx.model(IMPORTS, ['digest (run_resave %d %s %s [%s] None)' % (FNO[fmt], 'true' if comp else 'false', 'true' if sauce else 'false', '; '.join(map(str, d)))])
             print('model digest :', (m[0] or [])[:12]); print('impl  digest :', (digest(norm_resave_impl(r, sauce)) or [])[:12])
     else:
